@@ -274,4 +274,75 @@ example : (precompute 2 1 [(10, 0), (11, 1), (12, 0)]
       (fun buf => buf.map (·.n)) = some [2, 1] := by
   decide +kernel
 
+/-- "Collapsing the file to a coarser hierarchy ..." (`_convert_to_new_leaves`):
+`anc` sends every old leaf to its ancestor at the new leaf level.  If every old
+leaf has a row (through the file's `cluster_to_row`) inside the old arrays and
+every ancestor is one of the new leaves, the collapse succeeds, has one row per
+new leaf, and the row of new leaf `L` (at its position `i` in
+`new_tree.all_leaves`) is: the zero row if no old leaf lies under `L`,
+otherwise the sum of the old rows of the old leaves under `L`, taken in
+ascending row order. -/
+theorem truncate_rows (g : Nat) (data : Buffer) (oldLeafToRow : List (Nat × Nat))
+    (newLeaves : List Nat) (anc : List (Nat × Nat))
+    (hlook : ∀ p ∈ anc, ∃ r, oldLeafToRow.lookup p.1 = some r ∧ r < data.length)
+    (hanc : ∀ p ∈ anc, p.2 ∈ newLeaves) :
+    ∃ out, truncate g data oldLeafToRow newLeaves anc = .ok out ∧
+      out.length = newLeaves.length ∧
+      ∀ (L i : Nat), indexIn newLeaves L = some i →
+        out[i]? = some (if anc.filter (fun p => p.2 == L) = [] then Row.zero g
+          else rowSum (((((anc.filter (fun p => p.2 == L)).map (·.1)).filterMap
+            (fun k => oldLeafToRow.lookup k)).mergeSort).filterMap (fun r => data[r]?))) :=
+  truncate_spec g data oldLeafToRow newLeaves anc hlook hanc
+
+/- a concrete instance of the hypotheses: four old leaves (rows 2, 0, 3, 1) under the new
+leaves 30, 31, 30, 30; new leaf 32 has no old leaf -/
+example : ∃ out, truncate 0 [⟨1, []⟩, ⟨2, []⟩, ⟨4, []⟩, ⟨8, []⟩]
+      [(20, 2), (21, 0), (22, 3), (23, 1)] [31, 30, 32]
+      [(20, 30), (21, 31), (22, 30), (23, 30)] = .ok out ∧ out.length = 3 ∧
+      out[2]? = some (Row.zero 0) := by
+  obtain ⟨out, h1, h2, h3⟩ := truncate_rows 0 [⟨1, []⟩, ⟨2, []⟩, ⟨4, []⟩, ⟨8, []⟩]
+    [(20, 2), (21, 0), (22, 3), (23, 1)] [31, 30, 32]
+    [(20, 30), (21, 31), (22, 30), (23, 30)]
+    (by
+      intro p hp
+      simp only [List.mem_cons, List.not_mem_nil, or_false] at hp
+      rcases hp with rfl | rfl | rfl | rfl <;> exact ⟨_, rfl, by decide⟩)
+    (by decide)
+  exact ⟨out, h1, h2, by simpa using h3 32 2 (by decide)⟩
+
+/-- "Collapsing the file to a coarser hierarchy gives the statistics of that
+hierarchy": if moreover the old row of every old leaf `ℓ` is the zero row plus
+the accumulated statistics of some list `S ℓ` (of cells' contributions), then
+the row of every new leaf `L` is the zero row plus the accumulated statistics
+of the concatenation of the `S ℓ` over the old leaves `ℓ` under `L`, i.e. what
+direct computation with the coarser labelling gives (`rowSum` does not depend
+on the order, `stat_perm`). -/
+theorem truncate_direct (g : Nat) (data : Buffer) (oldLeafToRow : List (Nat × Nat))
+    (newLeaves : List Nat) (anc : List (Nat × Nat)) (S : Nat → List Row)
+    (hlook : ∀ p ∈ anc, ∃ r, oldLeafToRow.lookup p.1 = some r ∧ r < data.length ∧
+      data[r]? = some ((Row.zero g).add (rowSum (S p.1))))
+    (hanc : ∀ p ∈ anc, p.2 ∈ newLeaves) :
+    ∃ out, truncate g data oldLeafToRow newLeaves anc = .ok out ∧
+      out.length = newLeaves.length ∧
+      ∀ (L i : Nat), indexIn newLeaves L = some i →
+        out[i]? = some ((Row.zero g).add (rowSum
+          (((anc.filter (fun p => p.2 == L)).map (fun p => S p.1)).flatten))) :=
+  truncate_direct_spec g data oldLeafToRow newLeaves anc S hlook hanc
+
+/- a concrete instance: two old leaves with one and two cells under one new leaf -/
+example : ∃ out, truncate 1 [(Row.zero 1).add (rowSum [cellStat [1]]),
+        (Row.zero 1).add (rowSum [cellStat [2], cellStat [3]])] [(20, 1), (21, 0)]
+      [30] [(20, 30), (21, 30)] = .ok out ∧
+      out[0]? = some ((Row.zero 1).add (rowSum [cellStat [2], cellStat [3], cellStat [1]])) := by
+  obtain ⟨out, h1, _, h3⟩ := truncate_direct 1 [(Row.zero 1).add (rowSum [cellStat [1]]),
+        (Row.zero 1).add (rowSum [cellStat [2], cellStat [3]])] [(20, 1), (21, 0)]
+      [30] [(20, 30), (21, 30)]
+      (fun l => if l = 20 then [cellStat [2], cellStat [3]] else [cellStat [1]])
+    (by
+      intro p hp
+      simp only [List.mem_cons, List.not_mem_nil, or_false] at hp
+      rcases hp with rfl | rfl <;> exact ⟨_, rfl, by decide, by decide +kernel⟩)
+    (by decide)
+  exact ⟨out, h1, by simpa using h3 30 0 (by decide)⟩
+
 end CTM.C09
